@@ -266,6 +266,21 @@ def p_resource_rules(thorough=False, H=8, timeout=150):
     return obs
 
 
+def p_nested_release(thorough=False, H=12, timeout=150):
+    obs = []
+    for wprule in (0, 1):
+        tasks = [{"w": "$w0", "nf": True, "comp": 1, "wprule": wprule}, {"w": "$w1", "nf": True, "comp": 2, "wprule": wprule},
+                 {"w": "$w2", "nf": True, "comp": 0, "wprule": wprule}, {"w": "$w3", "nf": True, "comp": 3, "wprule": wprule}]
+        comps = [{"size": 1, "children": [1, 2]}, {"size": 1}, {"size": 1}, {"size": "$zd"}]
+        wps = [{"targets": [0, 1, 3], "cap": "$cap0", "facs": [{"skills": {"0": 1, "1": 1, "3": 1}}, {"skills": {"0": 1, "1": 1, "3": 1}}]},
+               {"targets": [2], "cap": 3, "facs": [{"skills": {"2": 1}}]}]
+        ws = [{"skills": {str(i): 1 for i in range(4)}, "fskills": {"0": 1, "1": 1, "2": 1}} for _ in range(3)]
+        spec = {"tasks": tasks, "edges": [[0, 2, 0], [1, 2, 0]], "teams": [_team(ws, [0, 1, 2, 3])], "wps": wps, "comps": comps, "run": {"max_time": H}}
+        obs.append({"name": "prod/N3/wprule=%d" % wprule, "harness": "sim", "cube": {"spec": spec},
+                    "params": [["w0", 1, 2], ["w1", 1, 2], ["w2", 1, 2], ["w3", 1, 2], ["zd", 1, 2], ["cap0", 2, 3]], "timeout": timeout})
+    return obs
+
+
 def p_cost(thorough=False, H=8, timeout=120):
     """Cost accounting: symbolic cost rates, work, absence steps; two teams, optional workplace with a facility."""
     obs = []
@@ -486,6 +501,7 @@ def _obligations_for(prop, tier):
             pj = [ob for ob in p_product("F1", thorough, H=12 if thorough else 8, timeout=900 if thorough else 150) if "wps=1" in ob["name"] or thorough]
             obs += with_history(pj, "cut+state", 3, {"cap0": (1, 2), "cap1": (1, 2), "fs0": (1, 1), "fs1": (1, 1)})
             obs += p_product("N2", thorough, H=12 if thorough else 8, timeout=900 if thorough else 150)
+            obs += p_nested_release(thorough, timeout=900 if thorough else 150)
         if prop == "C06":
             obs += p_absence(wmax=3 if thorough else 2, H=12 if thorough else 8, timeout=900 if thorough else 200, kinds=(0, 2) if not thorough else (0, 1, 2, 3))
         if prop in ("C03", "C04", "C06"):
